@@ -332,6 +332,20 @@ Definition collapse_verdict (st : state2) (l : N) : option (bool * bool * Z) :=
   | _, _ => None
   end.
 
+(* a cut splits faces: every face of the result carries the FaceAnchor of the face its old darts came from *)
+Definition face_anchors_follow (st st' : state2) : bool :=
+  negb (has_kind (aks st) KFA) ||
+  let old_mesh x := usable st x && negb (is_free2 (mem st) x) in
+  forallb (fun d' =>
+     match face_cycle st' d' with
+     | Some c =>
+       match filter old_mesh c with
+       | x :: _ => toks_eqb (slot st' (DAttr KFA) (cid st' PFace d')) (slot st (DAttr KFA) (cid st PFace x))
+       | [] => true
+       end
+     | None => true
+     end) (mesh_darts st').
+
 (* classes: 1 ill-formed, 2 a face is not a triangle, 3 V/E/F counts, 4 C15:vertex-set-wrong,
    5 signed area not conserved, 6 orientation around the collapsed vertex, 7 swap did not produce
    the other diagonal, 8 anchors, 9 removed darts not flagged *)
@@ -374,7 +388,7 @@ Definition oracle_remesh (ts : list tok) : list (list tok) :=
             (if inner then counts_delta st st' 1 3 2 else counts_delta st st' 1 2 1, 3);
             (multiset_eq (vtok (Some mid) :: vertex_multiset st) (vertex_multiset st'), 4);
             (negb exact || opt_dy_eqb (total_area2 st) (total_area2 st'), 5);
-            (anchors_kept st st' [vtok (Some mid)], 8) ]))
+            (anchors_kept st st' [vtok (Some mid)] && face_anchors_follow st st', 8) ]))
         | _, _, _, _ => [[TZ 2%Z]]
         end
       | KCollapse e =>
